@@ -37,6 +37,7 @@ pub struct BatchReport {
     pub exhaustive: Option<bool>,
     pub extra: BTreeMap<String, J>,
     pub extra_failure: Option<(Plan, Violation)>,
+    pub digests: Vec<(u64, u64)>,
 }
 
 impl BatchReport {
@@ -56,6 +57,7 @@ impl BatchReport {
         self.failures.extend(o.failures);
         self.reexecuted += o.reexecuted;
         self.digest_mismatches.extend(o.digest_mismatches);
+        self.digests.extend(o.digests);
     }
     pub fn bump(&mut self, key: &str, n: u64) {
         *self.counters.entry(key.to_string()).or_insert(0) += n;
@@ -76,6 +78,8 @@ pub struct Options {
     /// A JSON object file whose keys are merged into the evidence's coverage (results of steps the
     /// wrapper ran outside this process, e.g. the Miri step of C04).
     pub extra_json: Option<String>,
+    /// Write "run digest" lines (event-log digest of every run) to this file: determinism proof.
+    pub digests_out: Option<String>,
 }
 
 impl Options {
@@ -278,6 +282,9 @@ pub fn run_batch(scen: &dyn Scenario, opts: &Options) -> i32 {
                     let (plan, ctx, r) = execute_one(scen, tier, seed, run, listed, false);
                     rep.runs += 1;
                     rep.events += ctx.seq;
+                    if opts.digests_out.is_some() {
+                        rep.digests.push((run, ctx.digest() ^ u64::from(r.is_err())));
+                    }
                     for (k, v) in &ctx.counters {
                         *rep.counters.entry((*k).to_string()).or_insert(0) += v;
                     }
@@ -320,6 +327,14 @@ pub fn run_batch(scen: &dyn Scenario, opts: &Options) -> i32 {
         done.store(true, Ordering::Relaxed);
     });
     let mut rep = total.into_inner().unwrap();
+    if let Some(path) = &opts.digests_out {
+        rep.digests.sort_unstable();
+        let mut t = String::new();
+        for (r, d) in &rep.digests {
+            t.push_str(&format!("{r} {d:016x}\n"));
+        }
+        let _ = std::fs::write(path, t);
+    }
     rep.samples.sort_by_key(|j| j.get("run").and_then(|x| x.as_i64()).unwrap_or(0));
 
     if !rep.digest_mismatches.is_empty() {
